@@ -49,6 +49,7 @@ theorem recv_sound (hl : ∀ s, (cfg.lower s).length = s.length) (n : Nat) (ih :
   | enum vs ci => exact recv_enum cfg sfh vs ci b v H.wb h hi
   | pattern rs => exact recv_pattern cfg sfh rs b v h hi
   | regexp s => exact recv_regexp cfg sfh s b v h hi
+  | runtime rt nm pt => exact recv_runtime cfg sfh rt nm pt b v h hi
   | coll r => exact recv_coll cfg sfh r b v H.ok h hi
   | array e r => exact recv_array cfg sfh n ih e r b v hw H h hi
   | hash k x r => exact recv_hash cfg sfh n ih k x r b v hw H h hi
